@@ -105,3 +105,33 @@ def scope_wiring_items(ctx, repo):
                         ctx.item(ident, True, sample={"class": cls.name, "statement": _ast.unparse(st)[:100]})
                     else:
                         ctx.undecided.append("%s: %s" % (ident, _ast.unparse(st)[:80]))
+
+
+# ---- U3b: the YAML attrs reach the argument that CARRIES that name (Declaration.name: for a function-pointer argument the
+# name sits in declarator.func, not in declarator) ----------------------------------------------------------------------
+def _attr_update(ref):
+    def call(ex, st, args, kw, node):
+        c = st.heap[ref.oid]
+        f = dict(c.f)
+        f["upd"] = __import__("pyvc.values", fromlist=["VBool"]).VBool(True)
+        f["val"] = VPy(ex.to_py(args[0]))
+        st.heap[ref.oid] = HObj(c.cls, f)
+        return __import__("pyvc.values", fromlist=["VNone"]).VNone()
+    return VFun("dict.update on the argument's attrs[ghost: records what was merged]", call)
+
+
+_ARG = ("obj", "Declaration", {"name": "str", "declarator": ("opt", ("obj", "Declarator", {"name": ("opt", "str")})),
+                               "attrs": ("obj", "AttrDict", {"upd": ("const", False), "val": "py"})})
+attrs_merge = Unit(
+    prop="C14", name="FunctionNode.__init__[attrs of an argument]", target="shroud/ast.py::FunctionNode.__init__",
+    slice=('if "attrs" in kwargs: pass', 'if "attrs" in kwargs: pass'),
+    params={"kwargs": ("clistdict", {"attrs": "dict[py]"}), "ast": ("obj", "Declaration", {"params": ("clist", _ARG)})},
+    callees={("AttrDict", "update"): _attr_update},
+    ensures=[
+        # keyed by the name of the argument as the declaration reports it
+        "implies(ast.params[0].name in kwargs['attrs'], ast.params[0].attrs.upd and ast.params[0].attrs.val == kwargs['attrs'][ast.params[0].name])",
+        "implies(not (ast.params[0].name in kwargs['attrs']), not ast.params[0].attrs.upd)",
+    ],
+    raises=[],
+)
+UNITS += [attrs_merge]
